@@ -102,6 +102,20 @@ Definition sri_to_hex (i : integrity) : option (algo * bytes) :=
   | [] => None
   end.
 
+(* can [content_path] address this integrity?  (first hash canonical base64 of at least two bytes) *)
+Definition addressable (i : integrity) : bool :=
+  match sri_to_hex i with
+  | Some (_, h) => 4 <=? lenN h
+  | None => false
+  end.
+
+(* the integrity text of an index record: it must parse and be addressable, else the record is damaged *)
+Definition parse_entry_sri (text : bytes) : option integrity :=
+  match parse_sri text with
+  | Some i => if addressable i then Some i else None
+  | None => None
+  end.
+
 Fixpoint take_while_algo (a : algo) (i : integrity) : integrity :=
   match i with
   | h :: t => if algo_eqb (h_algo h) a then h :: take_while_algo a t else []
